@@ -262,3 +262,60 @@ def rule_content_type(ctx):
                   'the reply kind is the Content-Type header the daemon sent (absent header = not the expected kind)',
                   why + ': a header-less refusal is accepted as the genuine answer', loc=ctx.loc(f, f.node))
     return n
+
+
+def rule_stream_chunks(ctx):
+    '''The block body is streamed with one of aiohttp's chunk iterators.  Iterating the StreamReader object itself reads
+    LINES (aiohttp.streams.AsyncStreamReaderMixin.__aiter__ -> readline) and raises once a "line" exceeds the reader's
+    limit - any block with a long run free of 0x0a bytes - and that exception is not one the retry loop handles.'''
+    f = ctx.func('daemon', 'Daemon._get_to_file')
+    loops = [x for x in f.own_nodes() if isinstance(x, ast.AsyncFor)]
+    ok, why = False, 'no `async for` over the response body found'
+    for lp in loops:
+        it = lp.iter
+        if isinstance(it, ast.Call) and isinstance(it.func, ast.Attribute) and it.func.attr in ('iter_chunks', 'iter_chunked', 'iter_any'):
+            ok = True
+        else:
+            why = f'the body is iterated as `{norm(it)}`: that is line-by-line reading'
+    ctx.check(ok, 'C18.STREAM', ctx.key(f, loops[0] if loops else None, 'chunk iterator'),
+              'the block body is read with a chunk iterator (iter_chunks / iter_chunked / iter_any)',
+              why + ' - a block with more than the line limit between two 0x0a bytes raises inside the stream and the call fails although '
+              'the daemon answered correctly', loc=ctx.loc(f, loops[0] if loops else f.node))
+    return 1
+
+
+def rule_total_timeout(ctx):
+    '''A request that the daemon accepts and never completes ends only through aiohttp's total timeout; the resulting
+    asyncio.TimeoutError is what the retry loop rides out.  The session must not be built with that timeout disabled.'''
+    rel = ctx.repo.path('daemon')
+    n = 0
+    for f in ctx.repo.funcs.values():
+        if f.unit.relpath != rel:
+            continue
+        for c in q.own_calls(f):
+            if norm(c.func).endswith('ClientSession'):
+                n += 1
+                kw = {k.arg: k.value for k in c.keywords}
+                bad = None
+                t = kw.get('timeout')
+                if t is not None:
+                    from .c03 import expand_locals
+                    t = expand_locals(f, t)
+                    if isinstance(t, ast.Call) and norm(t.func).endswith('ClientTimeout'):
+                        tk = {k.arg: k.value for k in t.keywords}
+                        tot = tk.get('total', t.args[0] if t.args else None)
+                        if tot is None:
+                            bad = None          # default total (300 s) kept
+                        elif isinstance(tot, ast.Constant) and (tot.value is None or tot.value == 0):
+                            bad = f'`{norm(t)}` disables the total timeout'
+                        elif not (isinstance(tot, ast.Constant) and isinstance(tot.value, (int, float)) and tot.value > 0):
+                            bad = f'total timeout `{norm(tot)}` is not a positive constant'
+                    elif isinstance(t, ast.Constant) and t.value is None:
+                        bad = 'timeout=None disables all timeouts'
+                    else:
+                        bad = f'timeout `{norm(t)[:50]}` not understood'
+                ctx.check(bad is None, 'C18.TIMEOUT', ctx.key(f, q.stmt(c)),
+                          'the HTTP session keeps a finite total timeout per request',
+                          (bad or '') + ': a request the daemon accepts but never completes then hangs for ever - no TimeoutError, no retry, '
+                          'no fail-over', loc=ctx.loc(f, c))
+    return n
